@@ -513,7 +513,7 @@ func (k Keeper) PowerDiff(ctx context.Context, b, c types.BridgeValidatorSet) in
 	var totalPower int64
 	for _, bv := range b.BridgeValidatorSet {
 		power := int64(bv.GetPower())
-		powers[string(bv.EthereumAddress)] = power
+		powers[string(bv.EthereumAddress)] += power
 		totalPower += power
 	}
 
